@@ -190,7 +190,7 @@ func liveMember(g *G, m string) bool {
 }
 
 // PlansC07 returns the exploration plans of check C07 (also reused by C41).
-func PlansC07() []nrun.Plan { return append(append([]nrun.Plan{}, plansC07...), GenPlanC07()) }
+func PlansC07() []nrun.Plan { return append(append([]nrun.Plan{}, plansC07...), GenPlansC07()...) }
 
 var plansC07 = []nrun.Plan{
 	// The three protocols: k=1 quick, k=3 (time-capped) thorough.
